@@ -45,3 +45,31 @@ two_level("afkak.kafkacodec.KafkaCodec.decode_produce_response.<v2>", "prv2", "P
 two_level("afkak.kafkacodec.KafkaCodec.decode_fetch_response", "fr", "FetchResponse",
           sig="(data: bytes, api_version: int = 0) -> List[FetchResponse]", h="ite(api_version == 0, 4, 8)",
           requires=["api_version == 0 or api_version >= 2"], search={"data": "resp:fr", "api_version": "choice:[0]"})
+
+
+# ---------------------------------------------------------------------------------------------- three levels
+# OffsetResponse: [topic [partition error [offset]]] - the innermost array is collected into a tuple per partition
+_T = "orr_topics_pos(data, 4, i)"
+_A2 = "orr_topics_e_pos_partitions(data, %s)" % _T
+_P = "orr_parts_pos(data, %s, j)" % _A2
+_A3 = "orr_parts_e_pos_offsets(data, %s)" % _P
+_OUTER = ["num_topics == orr_topics_cnt(data, 4)", "4 <= cur and cur <= len(data)"]
+_MID = ["yielded == orr_items_outer(data, 4, i) + orr_items_inner(data, %s, %s, j)" % (_T, _A2),
+        "num_partitions == orr_parts_cnt(data, %s)" % _A2, "topic == orr_topics_e_topic(data, %s)" % _T,
+        "i < num_topics"] + _OUTER
+
+contract("afkak.kafkacodec.KafkaCodec.decode_offset_response")(type('_', (), dict(
+    sig="(data: bytes) -> List[OffsetResponse]", search={"data": "resp:orr"}, kind="generator", item="OffsetResponse",
+    props=["C05", "C12"], locals={"offsets": "List[int]"},
+    ensures={"func[C05]": "result == orr_items_outer(data, 4, orr_topics_cnt(data, 4))"},
+    raises=dict(ALLOWED_DECODE_ERRORS),
+    loops={
+        "for#1": dict(index="i", decreases="len(data) - cur", inv=[
+            "cur == %s" % _T, "yielded == orr_items_outer(data, 4, i)"] + _OUTER),
+        "for#1/for#1": dict(index="j", decreases="len(data) - cur", inv=["cur == %s" % _P, "pre(cur) <= cur"] + _MID),
+        "for#1/for#1/for#1": dict(index="k", decreases="len(data) - cur", inv=[
+            "cur == or_offs_pos(data, %s, k)" % _A3, "offsets == or_off_items(data, %s, k)" % _A3,
+            "num_offsets == or_offs_cnt(data, %s)" % _A3,
+            "partition == orr_parts_e_partition(data, %s)" % _P, "error == orr_parts_e_error(data, %s)" % _P,
+            "j < num_partitions", "pre(cur) <= cur"] + _MID),
+    })))
